@@ -9,7 +9,18 @@ Import ListNotations.
 Open Scope string_scope.
 Open Scope list_scope.
 
+Lemma forallb_ext_pt {A} (f g : A -> bool) l : (forall x, f x = g x) -> forallb f l = forallb g l.
+Proof. intros H. induction l as [|x xs IH]; simpl; [reflexivity|]. rewrite H, IH. reflexivity. Qed.
+
+Lemma forallb_and_guard {A} (gt : bool) (C T : A -> bool) l :
+  forallb (fun g => C g && (negb gt || T g)) l = forallb C l && (negb gt || forallb T l).
+Proof.
+  induction l as [|x xs IH]; cbn [forallb]; [destruct gt; reflexivity|]. rewrite IH.
+  destruct gt, (C x), (T x), (forallb C xs), (forallb T xs); reflexivity.
+Qed.
+
 Section Parse.
+  Variable gt : bool.                         (* with / without the repair proposed for D19d (Model.Problem.cfg_gt) *)
   Variable num : string -> option float.
   Variable dom : mdomain.
   Hypothesis Hdom : dom_ok dom.
@@ -29,6 +40,13 @@ Section Parse.
     && forallb (fluent_ok objs) (sp_fluents sp)
     && forallb (atom_ok v (v_preds v) objs) (sp_goal sp)
     && forallb (fun g => match g with (_, l, r) => code_ok (d_funcs dom) l && code_ok (d_funcs dom) r end) (sp_goal_num sp).
+
+  (* the check proposed for D19d: in numeric goals, arguments that are declared have conforming types *)
+  Definition goal_typed (sp : sproblem) : bool :=
+    negb gt || forallb (fun g : cmpop * nexp * nexp => match g with (_, l, r) =>
+                          tyd dom (sp_objects sp) l && tyd dom (sp_objects sp) r end) (sp_goal_num sp).
+
+  Definition wf_code_t (sp : sproblem) : bool := wf_code sp && goal_typed sp.
 
   (* ---------- what the code builds ---------- *)
   Definition value_of (tok : string) : float := match num tok with Some x => x | None => 0%float end.
@@ -79,9 +97,11 @@ Section Parse.
   Qed.
 
   Lemma fold_goal_closed gs : forall pb,
-    fold_opt (step_goal dom) gs pb =
+    fold_opt (step_goal gt dom) gs pb =
     if forallb (atom_ok v (v_preds v) (pb_objects pb)) (lefts gs)
-       && forallb (fun g => match g with (_, l, r) => code_ok (d_funcs dom) l && code_ok (d_funcs dom) r end) (rights gs)
+       && forallb (fun g => match g with (_, l, r) =>
+                    code_ok (d_funcs dom) l && code_ok (d_funcs dom) r
+                    && (negb gt || (tyd dom (pb_objects pb) l && tyd dom (pb_objects pb) r)) end) (rights gs)
     then Some (with_goal pb (pb_goal pb ++ lefts gs) (pb_goal_num pb ++ map goal_tree (rights gs)))
     else None.
   Proof.
@@ -92,7 +112,8 @@ Section Parse.
         destruct (atom_ok v (v_preds v) (pb_objects pb) (p, args)); cbn [andb]; [|reflexivity].
         rewrite IH. destruct pb. cbn. rewrite <- app_assoc. reflexivity.
       + rewrite lefts_cons_inr, rights_cons_inr. cbn [step_goal forallb].
-        destruct (code_ok (d_funcs dom) l && code_ok (d_funcs dom) r); cbn [andb].
+        destruct (code_ok (d_funcs dom) l && code_ok (d_funcs dom) r
+                  && (negb gt || (tyd dom (pb_objects pb) l && tyd dom (pb_objects pb) r))); cbn [andb].
         * rewrite IH. destruct pb. cbn. rewrite <- app_assoc. reflexivity.
         * rewrite andb_false_r. reflexivity.
   Qed.
@@ -100,16 +121,18 @@ Section Parse.
   (* ---------- sections ---------- *)
   Lemma foldM_init items its pb :
     all_some (map read_init_item items) = Some its ->
-    res_rel (foldM (parse_state_component cfg_fixed num dom) items pb) (fold_opt (step_init num dom) its pb).
+    res_rel (foldM (parse_state_component (cfg_gt gt) num dom) items pb) (fold_opt (step_init num dom) its pb).
   Proof.
     intros H. apply (foldM_res_rel (fun _ => True)); [| trivial | | trivial].
-    - intros s x y _ Hin. apply parse_state_component_spec; [exact Hdom|]. eapply all_some_In; eassumption.
+    - intros s x y _ Hin.
+      change (parse_state_component (cfg_gt gt) num dom s x) with (parse_state_component cfg_fixed num dom s x).
+      apply parse_state_component_spec; [exact Hdom|]. eapply all_some_In; eassumption.
     - rewrite <- (all_some_length _ _ H). rewrite map_length. reflexivity.
   Qed.
 
   Lemma foldM_goal gitems gs pb :
     all_some (map (read_goal_item num) gitems) = Some gs ->
-    res_rel (foldM (parse_goal_item cfg_fixed num dom) gitems pb) (fold_opt (step_goal dom) gs pb).
+    res_rel (foldM (parse_goal_item (cfg_gt gt) num dom) gitems pb) (fold_opt (step_goal gt dom) gs pb).
   Proof.
     intros H. apply (foldM_res_rel (fun _ => True)); [| trivial | | trivial].
     - intros s x y _ Hin. apply parse_goal_item_spec; [exact Hdom | exact Hnum |]. eapply all_some_In; eassumption.
@@ -136,21 +159,21 @@ Section Parse.
     all_some (map read_init_item items) = Some its ->
     all_some (map (read_goal_item num) gitems) = Some gs ->
     match tail with [] => true | [SList (Atom km :: _)] => String.eqb km ":metric" | _ => false end = true ->
-    res_rel (foldM (parse_section cfg_fixed num dom)
+    res_rel (foldM (parse_section (cfg_gt gt) num dom)
                    (SList (Atom ":init" :: items) :: SList [Atom ":goal"; SList (Atom "and" :: gitems)] :: tail) pb)
             (match fold_opt (step_init num dom) its pb with
-             | Some pb1 => fold_opt (step_goal dom) gs pb1
+             | Some pb1 => fold_opt (step_goal gt dom) gs pb1
              | None => None
              end).
   Proof.
     intros Hits Hgs Htail. cbn [foldM].
-    change (parse_section cfg_fixed num dom pb (SList (Atom ":init" :: items)))
-      with (foldM (parse_state_component cfg_fixed num dom) items pb).
+    change (parse_section (cfg_gt gt) num dom pb (SList (Atom ":init" :: items)))
+      with (foldM (parse_state_component (cfg_gt gt) num dom) items pb).
     apply res_rel_bind; [apply foldM_init; exact Hits|]. intros pb1.
-    change (parse_section cfg_fixed num dom pb1 (SList [Atom ":goal"; SList (Atom "and" :: gitems)]))
-      with (foldM (parse_goal_item cfg_fixed num dom) gitems pb1).
+    change (parse_section (cfg_gt gt) num dom pb1 (SList [Atom ":goal"; SList (Atom "and" :: gitems)]))
+      with (foldM (parse_goal_item (cfg_gt gt) num dom) gitems pb1).
     pose proof (foldM_goal gitems gs pb1 Hgs) as Hg.
-    destruct (fold_opt (step_goal dom) gs pb1) as [pb2|]; simpl in Hg.
+    destruct (fold_opt (step_goal gt dom) gs pb1) as [pb2|]; simpl in Hg.
     - rewrite Hg. cbn [bind]. destruct tail as [|[|[|[km|] body]] [|]]; try discriminate.
       + reflexivity.
       + apply String.eqb_eq in Htail. subst km. reflexivity.
@@ -161,9 +184,9 @@ Section Parse.
   Proof. apply has_dup_name_NoDup. Qed.
 
   (* ---------- the theorem on the model ---------- *)
-  Theorem parse_problem_spec e sp :
+  Theorem parse_problem_spec_t e sp :
     read_problem num e = Some sp ->
-    res_rel (parse_problem cfg_fixed num dom e) (if wf_code sp then Some (built sp) else None).
+    res_rel (parse_problem (cfg_gt gt) num dom e) (if wf_code_t sp then Some (built sp) else None).
   Proof.
     unfold read_problem. destruct e as [|[|[kd|] [|[|[|[kp|] [|[n|] [|]]]] [|[|[|[kdom|] [|[d|] [|]]]] rest]]]]; try discriminate.
     destruct (String.eqb kd "define") eqn:E1; [|discriminate].
@@ -173,14 +196,14 @@ Section Parse.
     unfold read_body.
     (* the first three elements of the top-level list *)
     assert (Hhead : forall rest',
-      foldM (parse_section cfg_fixed num dom)
+      foldM (parse_section (cfg_gt gt) num dom)
             (Atom "define" :: SList [Atom "problem"; Atom n] :: SList [Atom ":domain"; Atom d] :: rest') empty_problem
       = if String.eqb d (d_name dom)
-        then foldM (parse_section cfg_fixed num dom) rest' (with_name empty_problem n) else Err EValue).
+        then foldM (parse_section (cfg_gt gt) num dom) rest' (with_name empty_problem n) else Err EValue).
     { intros rest'. cbn [foldM parse_section bind]. cbn. destruct (String.eqb d (d_name dom)); reflexivity. }
-    change (parse_problem cfg_fixed num dom
+    change (parse_problem (cfg_gt gt) num dom
               (SList (Atom "define" :: SList [Atom "problem"; Atom n] :: SList [Atom ":domain"; Atom d] :: rest)))
-      with (foldM (parse_section cfg_fixed num dom)
+      with (foldM (parse_section (cfg_gt gt) num dom)
               (Atom "define" :: SList [Atom "problem"; Atom n] :: SList [Atom ":domain"; Atom d] :: rest) empty_problem).
     rewrite Hhead. clear Hhead.
     (* common continuation once the object table is known *)
@@ -190,13 +213,14 @@ Section Parse.
       match tail with [] => true | [SList (Atom km :: _)] => String.eqb km ":metric" | _ => false end = true ->
       let sp' := {| sp_name := n; sp_domain := d; sp_objects := os; sp_facts := lefts its; sp_fluents := rights its;
                     sp_goal := lefts gs; sp_goal_num := rights gs |} in
-      res_rel (foldM (parse_section cfg_fixed num dom)
+      res_rel (foldM (parse_section (cfg_gt gt) num dom)
                      (SList (Atom ":init" :: items) :: SList [Atom ":goal"; SList (Atom "and" :: gitems)] :: tail)
                      (after_objects n os))
               (if forallb (atom_ok v (v_preds v) os) (sp_facts sp') && forallb (fluent_ok os) (sp_fluents sp')
                   && (forallb (atom_ok v (v_preds v) os) (sp_goal sp')
-                      && forallb (fun g => match g with (_, l, r) => code_ok (d_funcs dom) l && code_ok (d_funcs dom) r end)
-                                 (sp_goal_num sp'))
+                      && (forallb (fun g => match g with (_, l, r) => code_ok (d_funcs dom) l && code_ok (d_funcs dom) r end)
+                                  (sp_goal_num sp')
+                          && goal_typed sp'))
                then Some (built sp') else None)).
     { intros os items gitems tail its gs Hits Hgs Htail sp'.
       eapply res_rel_ext; [|apply (tail_sections items gitems tail its gs); eassumption].
@@ -206,8 +230,19 @@ Section Parse.
       rewrite fold_goal_closed.
       cbn [after_objects with_objects with_name pb_objects pb_facts pb_fluents pb_goal pb_goal_num pb_name empty_problem
            with_fluents with_facts with_goal app].
+      unfold goal_typed. cbn [sp_objects sp_goal_num].
+      assert (Hsplit : forallb (fun g : cmpop * nexp * nexp => match g with (_, l, r) =>
+                           code_ok (d_funcs dom) l && code_ok (d_funcs dom) r && (negb gt || (tyd dom os l && tyd dom os r)) end) (rights gs)
+                       = forallb (fun g : cmpop * nexp * nexp => match g with (_, l, r) =>
+                                    code_ok (d_funcs dom) l && code_ok (d_funcs dom) r end) (rights gs)
+                         && (negb gt || forallb (fun g : cmpop * nexp * nexp => match g with (_, l, r) =>
+                                                   tyd dom os l && tyd dom os r end) (rights gs))).
+      { rewrite <- forallb_and_guard. apply forallb_ext_pt. intros [[c l] r]. reflexivity. }
+      rewrite Hsplit.
       destruct (forallb (atom_ok v (v_preds v) os) (lefts gs)
-                && forallb (fun g => match g with (_, l, r) => code_ok (d_funcs dom) l && code_ok (d_funcs dom) r end) (rights gs));
+                && (forallb (fun g => match g with (_, l, r) => code_ok (d_funcs dom) l && code_ok (d_funcs dom) r end) (rights gs)
+                    && (negb gt || forallb (fun g : cmpop * nexp * nexp => match g with (_, l, r) =>
+                                              tyd dom os l && tyd dom os r end) (rights gs))));
         reflexivity. }
     (* with or without an (:objects ...) section *)
     destruct rest as [|s1 rest1]; [discriminate|].
@@ -218,9 +253,9 @@ Section Parse.
       sp = {| sp_name := n; sp_domain := d; sp_objects := []; sp_facts := lefts its; sp_fluents := rights its;
               sp_goal := lefts gs; sp_goal_num := rights gs |} ->
       res_rel (if String.eqb d (d_name dom)
-               then foldM (parse_section cfg_fixed num dom) (s1 :: rest1) (with_name empty_problem n) else Err EValue)
-              (if wf_code sp then Some (built sp) else None)).
-    { intros items gitems tail -> Htail its gs Hits Hgs ->. unfold wf_code. cbn [sp_domain sp_objects types_ok forallb andb].
+               then foldM (parse_section (cfg_gt gt) num dom) (s1 :: rest1) (with_name empty_problem n) else Err EValue)
+              (if wf_code_t sp then Some (built sp) else None)).
+    { intros items gitems tail -> Htail its gs Hits Hgs ->. unfold wf_code_t, wf_code. cbn [sp_domain sp_objects types_ok forallb andb].
       destruct (String.eqb d (d_name dom)); cbn [andb]; [|exists EValue; reflexivity].
       pose proof (Hcont [] items gitems tail its gs Hits Hgs Htail) as H. cbn zeta in H.
       rewrite <- !andb_assoc. rewrite <- !andb_assoc in H. exact H. }
@@ -242,16 +277,16 @@ Section Parse.
         destruct (all_some (map read_init_item items)) as [its|] eqn:Eits; [|discriminate].
         destruct (all_some (map (read_goal_item num) gitems)) as [gs|] eqn:Egs; [|discriminate].
         intros H. injection H as <-.
-        unfold wf_code. cbn [sp_domain sp_objects].
+        unfold wf_code_t, wf_code. cbn [sp_domain sp_objects].
         destruct (String.eqb d (d_name dom)); cbn [andb]; [|exists EValue; reflexivity].
         cbn [foldM].
-        change (parse_section cfg_fixed num dom (with_name empty_problem n) (SList (Atom ":objects" :: toks)))
-          with (do objs <- parse_objects_sx cfg_fixed (ptt dom) (SList (Atom ":objects" :: toks));
+        change (parse_section (cfg_gt gt) num dom (with_name empty_problem n) (SList (Atom ":objects" :: toks)))
+          with (do objs <- parse_objects_sx (cfg_gt gt) (ptt dom) (SList (Atom ":objects" :: toks));
                 Ok (with_objects (with_name empty_problem n) objs)).
-        pose proof (parse_objects_read (ptt dom) ":objects" toks os Eos (has_dup_false_NoDup os Edup)) as Ho.
+        pose proof (parse_objects_read gt (ptt dom) ":objects" toks os Eos (has_dup_false_NoDup os Edup)) as Ho.
         unfold ptt in *.
         destruct (types_ok (d_types dom) os); cbn [andb].
-        * assert (Ho' : parse_objects_sx cfg_fixed (d_types dom) (SList (Atom ":objects" :: toks)) = Ok os) by exact Ho.
+        * assert (Ho' : parse_objects_sx (cfg_gt gt) (d_types dom) (SList (Atom ":objects" :: toks)) = Ok os) by exact Ho.
           rewrite Ho'. cbn [bind].
           pose proof (Hcont os items gitems tail its gs Eits Egs Etail) as H. cbn zeta in H.
           rewrite <- !andb_assoc. rewrite <- !andb_assoc in H. exact H.
@@ -271,3 +306,12 @@ Section Parse.
     - discriminate.
   Qed.
 End Parse.
+
+(* the tree as it is ([cfg_fixed] = [cfg_gt false]): the statement used by C09 and by the theorems about /repo *)
+Theorem parse_problem_spec num dom (Hdom : dom_ok dom) (Hnum : num_ok num) e sp :
+  read_problem num e = Some sp ->
+  res_rel (parse_problem cfg_fixed num dom e) (if wf_code num dom sp then Some (built num dom sp) else None).
+Proof.
+  intros Hr. pose proof (parse_problem_spec_t false num dom Hdom Hnum e sp Hr) as H.
+  unfold wf_code_t, goal_typed in H. cbn [negb orb] in H. rewrite andb_true_r in H. exact H.
+Qed.
